@@ -22,7 +22,7 @@ import numpy as np
 from common import *
 import tr_footprint as TR
 
-IMPORTS = "From CV Require Import Base.Tac Base.Cmp Model.C14_Chain Model.C14_Burn Model.C14_Out Model.C14_Warm."
+IMPORTS = "From CV Require Import Base.Tac Base.Cmp Model.C14_Chain Model.C14_Burn Model.C14_Out Model.C14_Warm Model.C14_Gibbs."
 RULE = ("one case = one (sampler configuration, operation sequence, random seed): operation sequences enumerate every split "
         "position and every checkpoint position 0..N of the sampling phase (N<=8 quick / <=40 thorough), with and without warm-up, "
         "in-memory and on-disk checkpoints, plus multi-split/multi-resume sequences; stateless interface: all (N, Nb) in a grid for "
@@ -79,8 +79,15 @@ class Ids:
 class Stream:
     """one scripted random stream that can be left and re-entered (fresh samplers are initialised outside it)"""
 
-    def __init__(self, seed):
+    def __init__(self, seed, record=False):
         self.sr = ScriptedRandom(seed)
+        self.values = []              # (kind, value) of every draw, when record=True
+        if record:
+            def script(kind, a, k, idx):
+                v = getattr(self.sr.gen, kind)(*a, **k)
+                self.values.append((kind, v))
+                return v
+            self.sr.script = script
 
     def __enter__(self):
         self.sr.__enter__()
@@ -309,14 +316,33 @@ class World:
         cls, tkey, kw, method, refkind = self.leg[name]
         return cls(self.targets[tkey], x0=np.array(x0, dtype=float), **dict(kw))
 
+    HYBRID = ["HybridGibbs/RTO+Conjugate", "HybridGibbs/NUTS+MH+Conjugate", "HybridGibbs/RTO+Conjugate,steps={x:2}",
+              "HybridGibbs/MALA+MH+Conjugate,steps={x:4,d:4}", "HybridGibbs/CWMH+CWMH+Conjugate,steps={x:2,d:2,l:2}",
+              "HybridGibbs/MH+Conjugate+Conjugate,steps={x:4}", "HybridGibbs/RTO+MH+Direct-free,steps={d:1}",
+              "HybridGibbs/MH+MH+Conjugate,steps={x:2,d:4,l:1}"]
+
     def make_hybrid(self, name):
+        """block samplers: exact ones (LinearRTO, Conjugate) and rejecting ones (MH, CWMH, MALA with large scales);
+        num_sampling_steps: None, dict with missing keys, full dict, values 1 / 2 / 4"""
         E = self.E
-        if name == "HybridGibbs/RTO+Conjugate":
-            return E.HybridGibbs(self.joint, {"x": E.LinearRTO(maxit=20), "d": E.Conjugate(), "l": E.Conjugate()})
-        if name == "HybridGibbs/NUTS+MH+Conjugate":
-            return E.HybridGibbs(self.joint, {"x": E.NUTS(max_depth=4), "d": E.MH(scale=0.5, initial_point=np.array([1.0])),
-                                              "l": E.Conjugate()}, {"x": 2, "d": 3, "l": 1})
-        raise KeyError(name)
+        one = lambda v: np.array([v])
+        x3 = lambda: np.array([0.25, -0.5, 0.75])
+        table = {
+            "HybridGibbs/RTO+Conjugate": ({"x": E.LinearRTO(maxit=20), "d": E.Conjugate(), "l": E.Conjugate()}, None),
+            "HybridGibbs/NUTS+MH+Conjugate": ({"x": E.NUTS(max_depth=4), "d": E.MH(scale=0.5, initial_point=one(1.0)), "l": E.Conjugate()},
+                                              {"x": 2, "d": 3, "l": 1}),
+            "HybridGibbs/RTO+Conjugate,steps={x:2}": ({"x": E.LinearRTO(maxit=20), "d": E.Conjugate(), "l": E.Conjugate()}, {"x": 2}),
+            "HybridGibbs/MALA+MH+Conjugate,steps={x:4,d:4}": ({"x": E.MALA(scale=0.6, initial_point=x3()), "d": E.MH(scale=1.5, initial_point=one(1.0)),
+                                                              "l": E.Conjugate()}, {"x": 4, "d": 4}),
+            "HybridGibbs/CWMH+CWMH+Conjugate,steps={x:2,d:2,l:2}": ({"x": E.CWMH(scale=1.0, initial_point=x3()), "d": E.CWMH(scale=1.5, initial_point=one(1.0)),
+                                                                    "l": E.Conjugate()}, {"x": 2, "d": 2, "l": 2}),
+            "HybridGibbs/MH+Conjugate+Conjugate,steps={x:4}": ({"x": E.MH(scale=0.6, initial_point=x3()), "d": E.Conjugate(), "l": E.Conjugate()}, {"x": 4}),
+            "HybridGibbs/RTO+MH+Direct-free,steps={d:1}": ({"x": E.LinearRTO(maxit=20), "d": E.MH(scale=1.0, initial_point=one(1.0)), "l": E.Conjugate()}, {"d": 1}),
+            "HybridGibbs/MH+MH+Conjugate,steps={x:2,d:4,l:1}": ({"x": E.MH(scale=0.5, initial_point=x3()), "d": E.MH(scale=2.0, initial_point=one(1.0)),
+                                                                "l": E.Conjugate()}, {"x": 2, "d": 4, "l": 1}),
+        }
+        strat, steps = table[name]
+        return E.HybridGibbs(self.joint, strat, steps)
 
     def make_gibbs(self, name):
         Lg = self.Lg
@@ -680,6 +706,27 @@ def run_gibbs(W, calls, nb, seed, scribble=False):
     led = Ledger()
     lens, outs = [], []
     warm = None
+    # reference that is not Gibbs' bookkeeping: what the block samplers' step methods returned in each sweep
+    last, sweeps = {}, []
+    for p_, cls_ in list(g.samplers.items()):
+        def factory(target, _cls=cls_, _p=p_):
+            obj = _cls(target)
+            orig = obj.step
+
+            def step(x, _orig=orig):
+                r = _orig(x)
+                last[_p] = canon(np.asarray(r).reshape(-1))
+                return r
+            obj.step = step
+            return obj
+        g.samplers[p_] = factory
+    ostep = g.step
+
+    def gstep(cs):
+        r = ostep(cs)
+        sweeps.append(b"".join(last[n_] for n_ in g.par_names))
+        return r
+    g.step = gstep
     with Stream(seed), quiet():
         for i, n in enumerate(calls):
             try:
@@ -697,15 +744,74 @@ def run_gibbs(W, calls, nb, seed, scribble=False):
                 scribble_samples(R)
     names = g.par_names
     return {"smp": joint_cols(outs[-1], names), "warm": warm, "lens": lens, "handout": led.bad,
-            "outs_now": [joint_cols(R, names) for R in outs]}
+            "outs_now": [joint_cols(R, names) for R in outs], "sweeps": sweeps}
 
 
 def run_hybrid(W, name, ops, seed, scribble=False):
+    """HybridGibbs under a scripted stream.  Besides the recorded chain two references that are not HybridGibbs'
+    bookkeeping are collected through wrapped `step` methods: (a) the block samplers' own current points after every
+    sweep; (b) for every inner step of an MH block, the harness's own Metropolis recursion from the scripted draws and
+    the joint log-density evaluated at the block samplers' current points"""
     led = Ledger()
     outs = []
-    with Stream(seed), quiet():
+    stream = Stream(seed, record=True)
+    sweeps, mh_bad, mh_checked = [], [], [0, 0]
+    with stream, quiet():
         h = W.make_hybrid(name)
         names = h.par_names
+        cur = {p: np.array(h.samplers[p].initial_point, dtype=float).reshape(-1).copy() for p in names}
+
+        def joint_logd(p, v):
+            kw = {q: cur[q] for q in names}
+            kw[p] = v
+            with np.errstate(all="ignore"):
+                try:
+                    return float(np.asarray(W.joint.logd(**kw)).reshape(-1)[0])
+                except Exception:
+                    return float("nan")
+
+        def wrap_block(p, smp):
+            orig = smp.step
+
+            def step():
+                i0 = len(stream.values)
+                x = np.array(smp.current_point, dtype=float).reshape(-1).copy()
+                scale = getattr(smp, "scale", None)
+                acc = orig()
+                x1 = np.array(smp.current_point, dtype=float).reshape(-1).copy()
+                if type(smp).__name__ == "MH" and not mh_bad:
+                    draws = stream.values[i0:]
+                    arr = [v for k, v in draws if np.size(v) == x.size and k != "rand"]
+                    us = [v for k, v in draws if k == "rand"]
+                    if len(arr) == 1 and len(us) == 1:
+                        xs = x + scale * np.asarray(arr[0], dtype=float).flatten()
+                        l0, l1 = joint_logd(p, x), joint_logd(p, xs)
+                        lu = float(np.log(us[0]))
+                        mh_checked[0] += 1
+                        if np.isfinite(l1) and np.isfinite(l0) and abs(lu - min(0.0, l1 - l0)) < 1e-9:
+                            pass                                    # decision within rounding of the joint: undecidable
+                        else:
+                            accept = bool(np.isfinite(l1) and lu <= min(0.0, l1 - l0))
+                            want = xs if accept else x
+                            mh_checked[1] += 1
+                            if canon(want) != canon(x1):
+                                mh_bad.append("MH block %s, sweep %d: from %s with proposal %s, log u = %.6g and joint log-density difference %.6g the "
+                                              "Metropolis rule %s, but the block sampler is at %s" % (
+                                                  p, len(sweeps), x.tolist(), xs.tolist(), lu, l1 - l0, "accepts" if accept else "rejects", x1.tolist()))
+                    else:
+                        mh_bad.append("MH block %s consumed an unexpected set of draws %s" % (p, [k for k, _ in draws]))
+                cur[p] = x1
+                return acc
+            smp.step = step
+
+        for p in names:
+            wrap_block(p, h.samplers[p])
+        osweep = h.step
+
+        def sweep():
+            osweep()
+            sweeps.append(b"".join(canon(h.samplers[p].current_point) for p in names))
+        h.step = sweep
         for o in ops:
             if o[0] == "S":
                 h.sample(o[1])
@@ -723,7 +829,9 @@ def run_hybrid(W, name, ops, seed, scribble=False):
     smp = [b"".join(canon(h.samples[n][k]) for n in names) for k in range(ns)]
     G = h.get_samples()
     gs_ok = all(np.asarray(G[n].samples).shape[-1] == ns for n in names) and joint_cols(G, names) == smp
-    return {"smp": smp, "gs_ok": gs_ok, "handout": led.bad, "outs_now": [joint_cols(R, names) for R in outs]}
+    return {"smp": smp, "gs_ok": gs_ok, "handout": led.bad, "outs_now": [joint_cols(R, names) for R in outs],
+            "sweeps": sweeps, "mh_bad": mh_bad[0] if mh_bad else None, "mh_checked": tuple(mh_checked),
+            "steps": dict(h.num_sampling_steps)}
 
 
 def attrs_snapshot(s):
@@ -873,6 +981,9 @@ def gibbs_case(W, calls, nb, seed, scribble=False):
         bad, sig = "warm-up chains differ", "legacy.Gibbs.sample|continuation"
     elif obs["lens"] != cum:
         bad, sig = "returned chain lengths %s, expected %s" % (obs["lens"], cum), "legacy.Gibbs.sample|continuation"
+    elif not scribble and obs["sweeps"] != obs["warm"] + obs["smp"]:
+        bad, sig = ("calls %s, Nb=%d: the recorded chain is not the sequence of values the block samplers' step methods returned sweep by sweep"
+                    % (calls, nb)), "legacy.Gibbs.sample|sweep-record"
     elif obs["handout"]:
         bad, sig = "calls %s, Nb=%d: %s" % (calls, nb, obs["handout"][1]), "legacy.Gibbs.sample|handout:" + obs["handout"][0]
     elif not scribble and any(o != ref["smp"][:c[0]] for o, c in zip(obs["outs_now"], cum)):
@@ -884,7 +995,8 @@ def gibbs_case(W, calls, nb, seed, scribble=False):
         expr = "check_gibbs %s %s %s %s && check_gibbs_outputs %s %s %s %s && %s" % (
             czvec(ref_ids), cnat(nb), clist([cnat(c) for c in calls]), czvec([ids(b) for b in obs["smp"]]),
             czvec(ref_ids), cnat(nb), clist([cnat(c) for c in calls]), coq_ll(obs["outs_now"], ids),
-            cbool(obs["lens"] == cum and obs["warm"] == ref["warm"]))
+            cbool(obs["lens"] == cum and obs["warm"] == ref["warm"])) + " && check_sweeps %s %s" % (
+            czvec([ids(b) for b in obs["sweeps"]]), czvec([ids(b) for b in obs["warm"] + obs["smp"]]))
     return Case(expr=expr, meta=meta, cell="gibbs/legacy/%s" % ("first-call-Ns=0" if calls[0] == 0 else "scribble" if scribble else "single" if len(calls) == 1 else "continued"),
                 trivial=len(calls) == 1, kind="DECISION", impl_fail=bad, signature=sig)
 
@@ -902,6 +1014,14 @@ def hybrid_case(W, name, ops, seed, scribble=False):
         kind = "scribble" if scribble else "split"
     elif not obs["gs_ok"]:
         bad = "get_samples() differs from the recorded chain"
+    elif obs["sweeps"] != obs["smp"]:
+        k = next((i for i, (a, b) in enumerate(zip(obs["smp"], obs["sweeps"])) if a != b), min(len(obs["smp"]), len(obs["sweeps"])))
+        bad = ("%s (num_sampling_steps %s) %s: the state recorded after sweep %d, %s, is not the state of the block samplers after that sweep, %s "
+               "(their own current points, observed through the wrapped step methods)" % (
+                   name, obs["steps"], ops, k, fl(obs["smp"][k]) if k < len(obs["smp"]) else None, fl(obs["sweeps"][k]) if k < len(obs["sweeps"]) else None))
+        kind = "sweep-record"
+    elif obs["mh_bad"]:
+        bad, kind = "%s %s: %s" % (name, ops, obs["mh_bad"]), "mh-block"
     elif obs["handout"]:
         bad, kind = "%s %s: %s" % (name, ops, obs["handout"][1]), "handout:" + obs["handout"][0]
     else:
@@ -913,9 +1033,10 @@ def hybrid_case(W, name, ops, seed, scribble=False):
                     name, ops, j, k), "handout:get_samples"
                 break
     sizes = clist([cnat(o[1]) for o in ops])
-    expr = "check_gibbs %s %s %s %s && check_gibbs_outputs %s %s %s %s && %s" % (
+    expr = "check_gibbs %s %s %s %s && check_gibbs_outputs %s %s %s %s && check_sweeps %s %s && %s" % (
         czvec(ref_ids), cnat(0), sizes, czvec([ids(b) for b in obs["smp"]]),
-        czvec(ref_ids), cnat(0), sizes, coq_ll(obs["outs_now"], ids), cbool(obs["gs_ok"]))
+        czvec(ref_ids), cnat(0), sizes, coq_ll(obs["outs_now"], ids),
+        czvec([ids(b) for b in obs["sweeps"]]), czvec([ids(b) for b in obs["smp"]]), cbool(obs["gs_ok"] and not obs["mh_bad"]))
     nS = sum(1 for o in ops if o[0] == "S")
     return Case(expr=expr, meta=meta, cell="gibbs/%s/%s" % (name, "scribble" if scribble else "split" if nS > 1 else "single"),
                 trivial=nS <= 1 and not scribble, kind="DECISION",
@@ -1348,7 +1469,15 @@ def gen_cases(ctx, rng, thorough_sizes=None):
             cases.append(gibbs_case(W, calls, nb, rng.randint(1, 10 ** 6)))
         for calls in ([2, 2], [1, 2, 1]):
             cases.append(gibbs_case(W, calls, nb, rng.randint(1, 10 ** 6), scribble=True))
-    for name in ("HybridGibbs/RTO+Conjugate", "HybridGibbs/NUTS+MH+Conjugate"):
+    for name in W.HYBRID[2:]:
+        # several inner steps per sweep, rejecting and exact block samplers: long enough to meet sweeps in which an early
+        # inner step is accepted and the last one rejected
+        for w in ([], [("W", 4, 1, 2)]):
+            seed = rng.randint(1, 10 ** 6)
+            n = ctx.n(16, 60)
+            for ops in ([("S", n)], [("S", 3), ("S", n - 3)], [("S", 0), ("S", n)]):
+                cases.append(hybrid_case(W, name, w + ops, seed))
+    for name in W.HYBRID[:2]:
         N = ctx.n(5, 12)
         for w in ([], [("W", 3, 1, 4)]):
             seed = rng.randint(1, 10 ** 6)
